@@ -48,7 +48,13 @@ SAN_MAIN = r'''
 #include <cstdio>
 #include <new>
 #include <exception>
-extern "C" void phqv_emit(const std::string&) {}
+static volatile unsigned phqv_sink = 0;
+extern "C" void phqv_emit(const std::string& s) {
+  // consume every byte, so that an uninitialised one is *used* (valgrind reports the conditional jump below)
+  unsigned h = 0;
+  for (const char c : s) h = h * 31u + static_cast<unsigned char>(c);
+  if (h %% 3u == 1u) ++phqv_sink;
+}
 extern "C" phqv_sv phqv_any_string() { return phqv_sv{0, ""}; }
 static std::string phqv_the_string;
 extern "C" const std::string& phqv_arbitrary_string() { return phqv_the_string; }
@@ -131,12 +137,12 @@ def no_ub(ctx, w, oid, desc, strings=None):
         xs = core.model_inputs(model, ['x%d' % i for i in range(w.n_in)], w.in_ty)
         ks = core.model_ints(model, ['k%d' % i for i in range(w.n_iin)])
         o.model = [core.hexf(x) for x in xs] + ks
-        rc, txt, src, cmd = san_replay(ctx, w, xs, ks, strings)
+        rc, txt, src, cmd = san_replay(ctx, w, xs, ks, strings, valgrind='uninitialised' in kind)
         if rc not in (0, None):
             o.verdict = 'violated'
             o.reason = '%s (%s) is reachable with inputs %s %s; sanitizer build: exit status %s: %s' % (kind, str(detail)[:120], o.model, '', rc, txt[-300:])
             o.replay = core.write_replay(PROP, oid, {'kind': 'program', 'property': PROP, 'obligation': oid, 'statement': desc, 'observed': o.reason, 'source': src,
-                                                    'builds': [{'compiler': cmd[0], 'flags': cmd[1:]}], 'wrappers': [], 'impl': None, 'inputs': []})
+                                                    'builds': [{'compiler': cmd[0], 'flags': cmd[1:], 'valgrind': 'uninitialised' in kind}], 'wrappers': [], 'impl': None, 'inputs': []})
             return o
         undecided = 'event %s (%s) is feasible in the model (inputs %s) but the sanitizer build reports nothing%s' % (kind, str(detail)[:100], o.model, '' if rc == 0 else ' (build failed: %s)' % txt[-200:])
     if undecided:
@@ -155,7 +161,7 @@ def cfloat(x, ty):
     return '%s0x%xp%s%s' % (m.group(1), int(m.group(2)), m.group(3), {'f32': 'f', 'f64': '', 'f80': 'L'}[ty])
 
 
-def san_replay(ctx, w, xs, ks, strings=None):
+def san_replay(ctx, w, xs, ks, strings=None, valgrind=False):
     u = ctx.unit
     inc = H.include_dir(u.work)
     strings = strings if strings is not None else ['']
@@ -175,14 +181,18 @@ def san_replay(ctx, w, xs, ks, strings=None):
     src = open(one.src).read()
     exe = one.src[:-4] + '.exe'
     flags = ['-std=c++17', '-O1', '-g0', '-w', '-ffp-contract=off', '-fsanitize=address,undefined', '-fno-sanitize-recover=all', '-D_GLIBCXX_ASSERTIONS']
+    if valgrind:
+        # reads of uninitialised memory are invisible to ASan/UBSan: plain build, run under valgrind memcheck
+        flags = ['-std=c++17', '-O0', '-g', '-w', '-ffp-contract=off']
     cmd = ['g++'] + flags
     rc, out, err = H.run_cmd(cmd + ['-I', inc, one.src, '-o', exe])
     try:
         if rc != 0:
             return None, err[-400:], src, cmd
-        p = subprocess.run([exe], stdout=subprocess.PIPE, stderr=subprocess.STDOUT, timeout=120, env=dict(os.environ, ASAN_OPTIONS='detect_leaks=0'))
+        run = ['valgrind', '-q', '--error-exitcode=9', exe] if valgrind else [exe]
+        p = subprocess.run(run, stdout=subprocess.PIPE, stderr=subprocess.STDOUT, timeout=300, env=dict(os.environ, ASAN_OPTIONS='detect_leaks=0'))
         txt = p.stdout.decode('utf-8', 'replace')
-        m = re.search(r'(ERROR: AddressSanitizer[^\n]*|runtime error:[^\n]*|EXCEPTION[^\n]*|Assertion[^\n]*)', txt)
+        m = re.search(r'(ERROR: AddressSanitizer[^\n]*|runtime error:[^\n]*|EXCEPTION[^\n]*|Assertion[^\n]*|==\d+== (?:Conditional jump|Use of uninitialised)[^\n]*)', txt)
         return p.returncode, (m.group(1) if m else txt.strip()[-300:]), src, cmd
     finally:
         for f in (exe, one.src):
@@ -211,6 +221,25 @@ def family_pure(inv, T):
             seen.add(nm)
             w2 = H.Wrapper(nm, w.in_ty, w.n_in, w.out_ty, w.n_out, w.body, w.n_iout, dict(w.meta or {}), w.n_iin, True)
             out.append((name, w2, '%s wrapper %s' % (name, w.name)))
+    # constitutive models (C12/C13 wrappers) and precision conversions (C16 wrappers)
+    from . import models as MD, C16
+    extra = []
+    for cls in MD.MODELS:
+        try:
+            extra += [('C12/C13', w) for w in MD.map_wrappers(cls, T, T)[0]]
+        except Exception as e:
+            out.append(('C12/C13', None, 'generator failed: %s' % e))
+    for T2 in [t for t in C.TYPES if t != T][:1 if core.tier() != 'thorough' else 2]:
+        try:
+            extra += [('C16', w) for w in C16.generate(inv, T, T2)[0]]
+        except Exception as e:
+            out.append(('C16', None, 'generator failed: %s' % e))
+    for name, w in extra:
+        nm = 'c20_%s_%s' % (name.replace('/', '_'), w.name)
+        if nm in seen or not w.flatten:
+            continue
+        seen.add(nm)
+        out.append((name, H.Wrapper(nm, w.in_ty, w.n_in, w.out_ty, w.n_out, w.body, w.n_iout, dict(w.meta or {}), w.n_iin, True), '%s wrapper %s' % (name, w.name)))
     return out
 
 
@@ -232,6 +261,17 @@ def family_tables(inv, tb):
                                  n_iout=1, n_iin=1, flatten=False, meta={'iin_domain': [vals]}), '%s: RelatedUnitSystem(u) for every declared unit' % q))
             ws.append((H.Wrapper('w_rt_' + tag, 'f64', 1, 'f64', 1, 'out[0] = PhQ::Convert(in[0], static_cast<%s>(iin[0]), static_cast<%s>(iin[1]));' % (E, E),
                                  n_iin=2, flatten=False, meta={'iin_domain': [vals, vals], 'max_paths': 20000}), '%s: Convert(x, from, to) for every ordered pair of declared units (find()->second)' % q))
+    return ws
+
+
+def family_dimensions():
+    """serialisations of a dimension set with arbitrary int8 exponents (2^7 zero / non-zero patterns)"""
+    dims = ['Time', 'Length', 'Mass', 'ElectricCurrent', 'Temperature', 'SubstanceAmount', 'LuminousIntensity']
+    ctor = ', '.join('PhQ::Dimension::%s(static_cast<int8_t>(iin[%d]))' % (d, i) for i, d in enumerate(dims))
+    ws = []
+    for f in ('Print', 'JSON', 'XML', 'YAML'):
+        ws.append((H.Wrapper('w_dims_' + f, 'f64', 0, 'f64', 0, 'const PhQ::Dimensions d(%s); phqv_emit(d.%s());' % (ctor, f), n_iin=7, flatten=False, meta={'max_paths': 70000}),
+                   'Dimensions::%s() for arbitrary exponents' % f))
     return ws
 
 
@@ -372,6 +412,7 @@ def main():
     add('tables', 'tables', family_tables(inv, tb), 8, ['-fno-inline'])
     add('tables', 'parse', family_parse(inv, tb, 3 if thorough else 2), 8, ['-fno-inline'])
     add('tables', 'number', family_number(), 1, ['-fno-inline'], includes=['PhQ/Base.hpp'])
+    add('tables', 'dims', family_dimensions(), 4, ['-fno-inline'], includes=['PhQ/Dimensions.hpp'])
     for T in C.TYPES:
         pw = family_print(inv, tb, T)
         # PhQ::Print itself for all three types (its buffer / precision arithmetic depends on the type); composite forms per tier
